@@ -99,6 +99,11 @@ Definition dispatch (H : oracle) (fn : list Z) (args : list val) : val :=
     match args with
     | [VB key; VB fb] => vres_b (cf <- cf_parse key fb ;; cf_serialize cf)
     | _ => bad_args end
+  else if fn_is "cf_hash" fn then
+    (* CompactFilter.parse(key, bytes).hash() *)
+    match args with
+    | [VB key; VB fb] => vres_b (cf <- cf_parse key fb ;; cf_hash (o_hash256 H) cf)
+    | _ => bad_args end
   else if fn_is "cf_contains" fn then
     (* CompactFilter.parse(key, bytes).__contains__(raw) for each raw *)
     match args with
